@@ -109,6 +109,11 @@ SPECIAL_FORMS = {
 # ---------------------------------------------------------------- builtin functions
 def _len(sx, args, kw, st, node):
     (v,) = args
+    from .sx import Unknown as _U
+    if isinstance(v, Conc) and isinstance(v.v, _U) and not sx.spec_mode:
+        n = sx.fresh(V.Int, "unknown_len", st)      # length of a value without contract: some non-negative integer, or TypeError
+        st.assume(n.term >= 0)
+        return [R(st, n), R(st.fork(), None, Exc("TypeError"))]
     if isinstance(v, Conc):
         if isinstance(v.v, (tuple, dict, str, bytes)):
             return ok(st, V.mk_int(len(v.v)))
